@@ -24,7 +24,11 @@ def sort_info(q):
 
 def keyseq(rows, sortq):
     idx = [k[0][1] for k in sortq[2]]
-    return [tuple(sqlgen.val_key(r[i]) for i in idx) for r in rows]
+    return [tuple(r[i] for i in idx) for r in rows]
+
+def keyseq_equal(a, b):
+    """key sequences equal cell by cell (doubles that came from a division may differ in the last bits)"""
+    return len(a) == len(b) and all(len(x) == len(y) and all(sqlq.close(u, v) for u, v in zip(x, y)) for x, y in zip(a, b))
 
 def run_rel(ctx, tag, groups, harness_env=None, extra_case=None):
     """groups: list of {"tables":[{"name","types","rows",...}], "queries":[{"q":ast,"kind":..}]}.
@@ -72,7 +76,7 @@ def run_rel(ctx, tag, groups, harness_env=None, extra_case=None):
             def ordered_ok(model_rows, full):
                 end = None if fetch is None else skip + fetch
                 want = keyseq(full[skip:end], sortq)
-                if keyseq(impl_rows, sortq) != want:
+                if not keyseq_equal(keyseq(impl_rows, sortq), want):
                     return False
                 if fetch is None and skip == 0:
                     return sqlq.bag_equal(impl_rows, model_rows)
